@@ -45,7 +45,7 @@ fn msg_head(m: &str) -> String {
     m[..end].trim().chars().take(70).collect()
 }
 
-const WORKERS: usize = 8;
+const WORKERS: usize = 12;
 const ALLOC_BASE: usize = 128 << 20;
 
 #[derive(Clone)]
@@ -62,6 +62,15 @@ struct Ctx {
 }
 
 fn ctx(args: &Args) -> Ctx {
+    let t0 = std::time::Instant::now();
+    let r = ctx0(args);
+    if std::env::var("C08_TIMING").is_ok() {
+        eprintln!("ctx: {:?}", t0.elapsed());
+    }
+    r
+}
+
+fn ctx0(args: &Args) -> Ctx {
     Ctx { files: files::all(args.seed, args.thorough()), thorough: args.thorough(), seed: args.seed }
 }
 
@@ -77,18 +86,23 @@ fn drive_sessions(c: &Ctx) -> Vec<Sess> {
     let mut rng = Rng::new(c.seed ^ 0x5E55);
     for (fi, f) in c.files.iter().enumerate() {
         let n = f.bytes.len();
-        for api in files::apis(f.fmt) {
+        for (ai, api) in files::apis(f.fmt).iter().enumerate() {
             if skip_api(f, api) {
                 continue;
             }
             let mut push = |p: Plan| out.push(Sess::File { file: fi, api, plan: p });
-            push(Plan { src: "base".into(), op: "none".into(), ..Default::default() });
-            // (b) single-byte corruptions: every position of short files / all files in the thorough tier,
-            // otherwise every byte of the small structural regions (budgeted) and a position sample
-            let budget = if c.thorough { usize::MAX } else { 36 };
+            // (b) single-byte corruptions.  quick: every position of short files, otherwise the bytes of the
+            // small structural regions (budgeted) and a position sample.  thorough: every position for the
+            // primary API of the main files, every 4th position for the other APIs, a larger sample for the
+            // one-column-per-type IPC files
+            let typed = f.name.starts_with('t') && f.name[1..].chars().all(|c| c.is_ascii_digit());
+            let primary = *api == files::apis(f.fmt)[0] || (f.fmt == "parquet" && *api == "metadata");
+            let budget = if c.thorough { 150 } else { 36 };
             let mut positions: Vec<usize> = vec![];
-            if n <= 300 || c.thorough {
+            if n <= 300 || (c.thorough && !typed && primary) {
                 positions.extend(0..n);
+            } else if c.thorough && !typed {
+                positions.extend((ai % 4..n).step_by(4));
             } else {
                 let mut small: Vec<usize> = f.regions.iter().filter(|r| r.kind != "body" && r.kind != "meta" && r.kind != "line").flat_map(|r| r.lo..r.hi).collect();
                 while small.len() > budget / 2 {
@@ -103,24 +117,27 @@ fn drive_sessions(c: &Ctx) -> Vec<Sess> {
             }
             for p in positions {
                 for (op, arg) in [("set", "0"), ("set", "255"), ("flip", "lo"), ("flip", "hi")] {
-                    push(Plan { src: "byte".into(), op: op.into(), arg: arg.into(), sel: "abs".into(), pos: p, ..Default::default() });
+                    push(Plan { src: "byte", op, arg, sel: "abs", pos: p, ..Default::default() });
                 }
             }
-            // (c) truncations: every length of short files, a sample otherwise
-            let cuts: Vec<usize> = if n <= 300 || c.thorough { (0..n).collect() } else { (0..24).map(|_| rng.below(n)).collect() };
+            // (c) truncations: every length of short files (thorough: of the main files for the primary API), a sample otherwise
+            let cuts: Vec<usize> = if n <= 300 || (c.thorough && !typed && primary) { (0..n).collect() } else { (0..(if c.thorough { 60 } else { 24 })).map(|_| rng.below(n)).collect() };
             for p in cuts {
-                push(Plan { src: "trunc".into(), op: "trunc".into(), sel: "abs".into(), pos: p, ..Default::default() });
+                push(Plan { src: "trunc", op: "trunc", sel: "abs", pos: p, ..Default::default() });
             }
-            // (d) cross-splices with the other valid files of the format: a prefix of this file up to a
-            // region boundary followed by a suffix of the donor from a region boundary
-            for (di, d) in c.files.iter().enumerate() {
-                if di == fi || d.fmt != f.fmt || f.regions.is_empty() || d.regions.is_empty() {
+            // (d) cross-splices with other valid files of the format (at most 3 donors): a prefix of this file up
+            // to a region boundary followed by a suffix of the donor from a region boundary
+            let donors: Vec<usize> = (0..c.files.len()).filter(|di| *di != fi && c.files[*di].fmt == f.fmt && !c.files[*di].regions.is_empty()).collect();
+            for k in 0..donors.len().min(3) {
+                let di = donors[(fi + k * 7) % donors.len()];
+                let d = &c.files[di];
+                if f.regions.is_empty() {
                     continue;
                 }
-                for _ in 0..(if c.thorough { 40 } else { 4 }) {
+                for _ in 0..(if c.thorough { 25 } else { 4 }) {
                     let a = f.regions[rng.below(f.regions.len())].lo;
                     let b = d.regions[rng.below(d.regions.len())].lo;
-                    push(Plan { src: "splice".into(), op: "xsplice".into(), sel: "abs".into(), pos: a, d: b as i64, donor: di + 1, ..Default::default() });
+                    push(Plan { src: "splice", op: "xsplice", sel: "abs", pos: a, d: b as i64, donor: di + 1, ..Default::default() });
                 }
             }
         }
@@ -174,7 +191,7 @@ fn gen_sessions(c: &Ctx, cases: &str) -> Vec<Sess> {
         let fi = v["f"].as_u64().expect("f") as usize;
         let f = &c.files[fi];
         let mut p = plan::plan_from(&v);
-        p.src = "gen".into();
+        p.src = "gen";
         // the plan was enumerated for this very region map
         let r = &f.regions[p.r - 1];
         if v["k"].as_str() != Some(r.kind) || v["w"].as_u64() != Some((r.hi - r.lo) as u64) || v["fmt"].as_str() != Some(f.fmt) {
@@ -183,22 +200,53 @@ fn gen_sessions(c: &Ctx, cases: &str) -> Vec<Sess> {
         }
         let apis = files::apis(f.fmt);
         let apis = if c.thorough { apis } else { &apis[..apis.len().min(2)] };
-        for api in apis {
+        for (ai, api) in apis.iter().enumerate() {
             if !skip_api(f, api) {
-                out.push(Sess::File { file: fi, api, plan: p.clone() });
+                out.push((fi, ai, Sess::File { file: fi, api, plan: p }));
             }
         }
     }
-    out
+    // grouped by (file, api): see `worker`
+    out.sort_by_key(|x| (x.0, x.1));
+    out.into_iter().map(|x| x.2).collect()
 }
 
 // ------------------------------------------------------------------------------------------ one session
+
+/// innermost reader-crate function on the current stack.  Symbolising a backtrace is slow (tens of ms), so
+/// the result is cached under the raw return addresses of the stack (cheap to collect).
+fn frame_cached() -> String {
+    static CACHE: Mutex<Vec<(Vec<usize>, String)>> = Mutex::new(Vec::new());
+    let mut ips = [std::ptr::null_mut::<libc::c_void>(); 48];
+    let n = unsafe { libc::backtrace(ips.as_mut_ptr(), 48) }.max(0) as usize;
+    let key: Vec<usize> = ips[..n].iter().map(|p| *p as usize).collect();
+    if let Ok(c) = CACHE.try_lock() {
+        if let Some((_, f)) = c.iter().find(|(k, _)| *k == key) {
+            return f.clone();
+        }
+    }
+    let f = alloc::reader_frame(&std::backtrace::Backtrace::force_capture().to_string());
+    if let Ok(mut c) = CACHE.try_lock() {
+        c.push((key, f.clone()));
+    }
+    f
+}
 
 /// panic -> (constant head of the message + " @ " + innermost function of a reader crate on the stack, location)
 fn guarded_at<T>(f: impl FnOnce() -> T) -> Result<T, (String, String)> {
     PANIC_AT.lock().unwrap().clear();
     PANIC_FN.lock().unwrap().clear();
     vcore::guarded(f).map_err(|msg| (format!("{}@{}", msg_head(&msg), PANIC_FN.lock().unwrap()), PANIC_AT.lock().unwrap().clone()))
+}
+
+/// `crate::module` of a symbol name (`<a::b::T as ..>::f` -> `a::b`)
+fn fn_module(f: &str) -> String {
+    let f = f.trim_start_matches('<');
+    let mut it = f.split("::");
+    match (it.next(), it.next()) {
+        (Some(a), Some(b)) if !a.is_empty() => format!("{a}::{b}"),
+        _ => String::new(),
+    }
 }
 
 fn file_of(at: &str) -> &str {
@@ -236,7 +284,7 @@ fn file_event(c: &Ctx, sid: usize, file: usize, api: &str, p: &Plan) -> Option<(
     Some((ev, a.bytes))
 }
 
-fn finish_event(mut ev: Value, outcome: &str, wher: &str, msg: &str, o: Option<&readers::Out>, peak: usize) -> Value {
+fn finish_event(mut ev: Value, outcome: &str, wher: &str, msg: &str, o: Option<&readers::Out>, peak: usize, base: &[String]) -> Value {
     let m = ev.as_object_mut().unwrap();
     m.insert("outcome".into(), json!(outcome));
     m.insert("where".into(), json!(wher));
@@ -244,13 +292,35 @@ fn finish_event(mut ev: Value, outcome: &str, wher: &str, msg: &str, o: Option<&
     let (head, func) = msg.split_once('@').unwrap_or((msg, ""));
     m.insert("msg".into(), json!(head));
     m.insert("fn".into(), json!(func));
+    m.insert("fmod".into(), json!(fn_module(func)));
     let none: Vec<Value> = vec![];
     match o {
         Some(o) => {
             m.insert("phase".into(), json!(o.phase));
             m.insert("has_declared".into(), json!(o.has_declared));
             m.insert("declared".into(), json!(o.declared));
-            m.insert("batches".into(), json!(o.batches));
+            // a batch identical (as a dump) to batch k of the group's uncorrupted session is recorded as `ref: k`
+            let bs: Vec<Value> = o
+                .batches
+                .iter()
+                .map(|b| {
+                    let mut b = b.clone();
+                    let key = serde_json::to_string(&b).unwrap();
+                    let r = base.iter().position(|x| *x == key).map(|i| i + 1).unwrap_or(0);
+                    let m = b.as_object_mut().unwrap();
+                    if r > 0 {
+                        let none: Vec<Value> = vec![];
+                        let nos: Vec<String> = vec![];
+                        m.insert("cols".into(), json!(none));
+                        m.insert("schema".into(), json!(none));
+                        m.insert("lens".into(), json!(none));
+                        m.insert("types".into(), json!(nos));
+                    }
+                    m.insert("ref".into(), json!(r));
+                    b
+                })
+                .collect();
+            m.insert("batches".into(), json!(bs));
             m.insert("nb".into(), json!(o.nb));
             m.insert("big".into(), json!(o.big));
             m.insert("units".into(), json!(o.units.min(1 << 30)));
@@ -269,16 +339,19 @@ fn finish_event(mut ev: Value, outcome: &str, wher: &str, msg: &str, o: Option<&
     ev
 }
 
-fn run_session(c: &Ctx, sid: usize, s: &Sess) -> Option<Value> {
+fn run_session(c: &Ctx, sid: usize, s: &Sess, base: &[String]) -> Option<Value> {
     match s {
         Sess::File { file, api, plan } => {
             let (ev, bytes) = file_event(c, sid, *file, api, plan)?;
             let f = &c.files[*file];
             alloc::begin(sid, ALLOC_BASE + 64 * bytes.len());
             let r = guarded_at(|| readers::run(f.fmt, api, &bytes, &f.extra));
+            let ms = (alloc::cpu_ns().saturating_sub(alloc::CPU0.load(std::sync::atomic::Ordering::Relaxed)) / 1_000_000) as usize;
             let (peak, hit) = alloc::end();
+            let mut ev = ev;
+            ev.as_object_mut().unwrap().insert("ms".into(), json!(ms.min(1 << 30)));
             Some(match r {
-                Err((msg, at)) => finish_event(ev, "panic", &at, &msg, None, peak),
+                Err((msg, at)) => finish_event(ev, "panic", &at, &msg, None, peak, base),
                 Ok(o) => {
                     let outcome = if hit > 0 {
                         "alloc"
@@ -288,7 +361,7 @@ fn run_session(c: &Ctx, sid: usize, s: &Sess) -> Option<Value> {
                         o.outcome.as_str()
                     };
                     let wher = if hit > 0 { format!("alloc@{}", alloc::REFUSED_BY.lock().unwrap()) } else if o.runaway { "unbounded output".to_string() } else { String::new() };
-                    finish_event(ev, outcome, "", &wher, Some(&o), peak)
+                    finish_event(ev, outcome, "", &wher, Some(&o), peak, base)
                 }
             })
         }
@@ -320,7 +393,9 @@ fn dead_event(c: &Ctx, sid: usize, s: &Sess, outcome: &str, wher: &str) -> Optio
     match s {
         Sess::File { file, api, plan } => {
             let (ev, _) = file_event(c, sid, *file, api, plan)?;
-            Some(finish_event(ev, outcome, "", wher, None, 0))
+            let mut ev = ev;
+            ev.as_object_mut().unwrap().insert("ms".into(), json!(0));
+            Some(finish_event(ev, outcome, "", wher, None, 0, &[]))
         }
         Sess::VarValue { src, meta, value, .. } => Some(variant::value_event(src, meta, value, outcome, wher, "")),
         Sess::VarMeta { src, meta, .. } => Some(variant::meta_event(src, meta, outcome, wher, &[])),
@@ -352,12 +427,30 @@ fn worker(args: &Args) {
     alloc::cap_address_space(6 << 30);
     alloc::start_watchdog(5, 60);
     let mut shard = std::fs::OpenOptions::new().create(true).append(true).open(shard_path(&args.out, &mode, w)).unwrap();
+    // sessions are grouped by (file, api): at the start of its share of a group the worker runs the
+    // uncorrupted session itself and records it (src = "base"); batches of the following sessions that are
+    // identical to a base batch are recorded as references to it
+    let mut group: Option<(usize, &'static str)> = None;
+    let mut base: Vec<String> = vec![];
     for (k, s) in sessions.iter().enumerate() {
         if k % WORKERS != w || k < from {
             continue;
         }
+        if let Sess::File { file, api, .. } = s {
+            if group != Some((*file, *api)) {
+                group = Some((*file, *api));
+                base.clear();
+                let b = Sess::File { file: *file, api, plan: Plan { src: "base", op: "none", ..Default::default() } };
+                if let Some(ev) = run_session(&c, k, &b, &[]) {
+                    base = ev["batches"].as_array().map(|a| a.iter().map(|x| { let mut x = x.clone(); x.as_object_mut().unwrap().remove("ref"); serde_json::to_string(&x).unwrap() }).collect()).unwrap_or_default();
+                    let mut line = serde_json::to_vec(&ev).unwrap();
+                    line.push(b'\n');
+                    shard.write_all(&line).unwrap();
+                }
+            }
+        }
         alloc::mark(b'S', k, 0);
-        if let Some(ev) = run_session(&c, k, s) {
+        if let Some(ev) = run_session(&c, k, s, &base) {
             let mut line = serde_json::to_vec(&ev).unwrap();
             line.push(b'\n');
             shard.write_all(&line).unwrap();
@@ -387,8 +480,23 @@ fn supervise(args: &Args, mode: &str) {
     let mut kids: Vec<(usize, std::process::Child, usize)> = (0..WORKERS).map(|w| (w, spawn(w, 0), 0)).collect();
     let mut dead = 0usize;
     let mut restarts = 0usize;
-    while let Some((w, mut child, _)) = kids.pop() {
-        let st = child.wait().expect("wait");
+    loop {
+        // poll every worker: a dead one is restarted at once, whatever the others are doing
+        let mut finished: Option<(usize, std::process::ExitStatus)> = None;
+        for (i, (_, child, _)) in kids.iter_mut().enumerate() {
+            if let Some(st) = child.try_wait().expect("wait") {
+                finished = Some((i, st));
+                break;
+            }
+        }
+        let Some((i, st)) = finished else {
+            if kids.is_empty() {
+                break;
+            }
+            std::thread::sleep(std::time::Duration::from_millis(15));
+            continue;
+        };
+        let (w, _, _) = kids.swap_remove(i);
         if st.success() {
             continue;
         }
@@ -487,7 +595,7 @@ fn variant_replay(args: &Args) {
         Ok((o, t)) => (o, String::new(), t),
         Err((msg, at)) => ("panic".to_string(), format!("{}|{msg}", file_of(&at)), String::new()),
     });
-    let mut t = vcore::Trace::create(&args.out, "untrusted-variant-00");
+    let mut t = vcore::Trace::create(&args.out, "untrusted-gen-v0");
     let n = r.events.len();
     for e in r.events {
         t.emit(e);
@@ -502,6 +610,7 @@ fn variant_replay(args: &Args) {
 
 fn runfile(args: &Args) {
     let (fmt, api, path) = (&args.extra[0], &args.extra[1], &args.extra[2]);
+    alloc::start_watchdog(std::env::var("C08_CPU_S").ok().and_then(|x| x.parse().ok()).unwrap_or(5), 600);
     let bytes = std::fs::read(path).expect("read");
     if fmt == "variant" {
         // file = metadata length byte, metadata, value
@@ -530,12 +639,20 @@ fn main() {
             if let Ok(mut g) = PANIC_AT.try_lock() {
                 let f = l.file();
                 let f = f.rsplit("/repo/").next().unwrap_or(f);
-                let f = f.rsplit("/registry/src/").next().unwrap_or(f);
+                // crates of the registry: drop the index directory, keep `<crate>-<version>/src/..`
+                let f = match f.rsplit_once("/registry/src/") {
+                    Some((_, t)) => t.split_once('/').map(|x| x.1).unwrap_or(t),
+                    None => f,
+                };
                 *g = format!("{}:{}", f, l.line());
             }
         }
         if let Ok(mut g) = PANIC_FN.try_lock() {
-            *g = alloc::reader_frame(&std::backtrace::Backtrace::force_capture().to_string());
+            // symbolising the stack is the harness's time, not the reader's
+            let (c0, w0) = (alloc::cpu_ns(), alloc::wall_ms());
+            *g = frame_cached();
+            alloc::CPU0.fetch_add(alloc::cpu_ns().saturating_sub(c0), std::sync::atomic::Ordering::Relaxed);
+            alloc::WALL0.fetch_add(alloc::wall_ms().saturating_sub(w0), std::sync::atomic::Ordering::Relaxed);
         }
     }));
     match args.driver.as_str() {
@@ -546,6 +663,23 @@ fn main() {
         "variant" => variant_replay(&args),
         "runfile" => runfile(&args),
         "probe" => probe(&args),
+        "save" => save(&args),
+        "count" => {
+            let c = ctx(&args);
+            let mut m: std::collections::BTreeMap<String, usize> = Default::default();
+            for s in drive_sessions(&c) {
+                let k = match &s {
+                    Sess::File { file, plan, .. } => format!("{}:{}", c.files[*file].fmt, plan.src),
+                    Sess::VarValue { src, .. } => format!("variant:{src}"),
+                    Sess::VarMeta { src, .. } => format!("vmeta:{src}"),
+                };
+                *m.entry(k).or_default() += 1;
+            }
+            println!("{m:?} total={}", m.values().sum::<usize>());
+            for f in &c.files {
+                println!("{} {} {} bytes {} regions", f.fmt, f.name, f.bytes.len(), f.regions.len());
+            }
+        }
         other => {
             eprintln!("unknown driver {other}");
             std::process::exit(2);
@@ -553,8 +687,54 @@ fn main() {
     }
 }
 
-/// minimal reproductions of the known findings (written to findings/C08 by `probe --out <dir>`)
+/// `save <event.json> <out path>`: rebuild the corrupted input of a recorded session (same --tier / --seed
+/// as the run that recorded it) and write it to a file; Variant events are written as
+/// [metadata length byte, metadata, value]
+fn save(args: &Args) {
+    let ev: Value = serde_json::from_str(&std::fs::read_to_string(&args.extra[0]).expect("event file")).expect("json");
+    let bytes_of = |v: &Value| -> Vec<u8> { v.as_array().map(|a| a.iter().map(|x| x.as_u64().unwrap_or(0) as u8).collect()).unwrap_or_default() };
+    let out: Vec<u8> = if ev["ev"] == "session" {
+        let c = ctx(args);
+        let fi = c.files.iter().position(|f| f.fmt == ev["fmt"].as_str().unwrap_or("") && f.name == ev["file"].as_str().unwrap_or("")).expect("base file");
+        let p = plan::plan_from(&ev);
+        let donor = if p.donor > 0 { c.files.get(p.donor - 1) } else { None };
+        plan::apply(&c.files[fi], donor, &p).expect("plan applies").bytes
+    } else {
+        let m = bytes_of(&ev["meta"]);
+        let mut o = vec![m.len() as u8];
+        o.extend_from_slice(&m);
+        o.extend_from_slice(&bytes_of(&ev["value"]));
+        o
+    };
+    std::fs::write(&args.extra[1], &out).expect("write");
+    println!("saved {} bytes to {}", out.len(), args.extra[1]);
+}
+
 fn probe(args: &Args) {
-    let _ = args;
-    println!("DRIVER c08-probe findings=0");
+    // the reproductions are files: findings/C08/<id>.bin, replayed with `c08 runfile <fmt> <api> <path> [<base file name>]`
+    let dir = args.extra.first().cloned().unwrap_or_else(|| "/verif/findings/C08".to_string());
+    let Ok(idx) = std::fs::read_to_string(format!("{dir}/INDEX.txt")) else {
+        println!("DRIVER c08-probe findings=0");
+        return;
+    };
+    let exe = std::env::current_exe().unwrap();
+    let mut n = 0;
+    for line in idx.lines() {
+        let f: Vec<&str> = line.split_whitespace().collect();
+        if f.len() < 4 {
+            continue;
+        }
+        // id fmt api file [base name]; each reproduction runs in a child process (it may abort)
+        let mut cmd = std::process::Command::new(&exe);
+        cmd.arg("runfile").arg(f[1]).arg(f[2]).arg(format!("{dir}/{}", f[3]));
+        if let Some(b) = f.get(4) {
+            cmd.arg(b);
+        }
+        let o = cmd.arg("--tier").arg(&args.tier).arg("--seed").arg(args.seed.to_string()).output().expect("run");
+        let txt = String::from_utf8_lossy(&o.stdout);
+        let res = txt.lines().last().unwrap_or("").to_string();
+        println!("{}: {}", f[0], if o.status.success() { res } else { format!("process died: {:?} {}", o.status, String::from_utf8_lossy(&o.stderr).lines().next().unwrap_or("")) });
+        n += 1;
+    }
+    println!("DRIVER c08-probe findings={n}");
 }
